@@ -47,8 +47,12 @@ package fasthttp
 //@   ghost hooked bool = false
 //@   ghost ovr int = 0
 //
+//   freshCtx: ctx is a context no request was read into yet (just acquired, e.g. swapped in after a handler
+//   timeout): asking *it* whether a body stream was left unread says nothing about the request just handled.
+//@   ghost freshCtx bool = false
 //@   on call Server.acquireCtx -> x:
 //@     ensures !x.hijackNoResponse && x.hijackHandler == nil
+//@     effect freshCtx = true
 //@   on call value:onHdrRecv -> conf:
 //@     effect hooked = true; ovr = conf.MaxRequestBodySize
 //@   on call bufio.Reader.Buffered -> n:
@@ -86,10 +90,10 @@ package fasthttp
 //@   on call field:ContinueHandler -> ok:
 //@     effect rejected = rejected || !ok; unread = unread || !ok
 //@   on call field:Handler:
-//@     effect handled = true; respClose = *; respDirty = true; unread = unread && nd
+//@     effect handled = true; respClose = *; respDirty = true; unread = unread && nd; freshCtx = false
 //@     modifies ctx.hijackHandler ctx.hijackNoResponse ctx.timeoutResponse
 //@   on call Request.hasUnreadBodyStream -> u:
-//@     returns unread
+//@     returns unread && !freshCtx
 //@   on call Response.CopyTo:
 //@     effect respClose = *; respDirty = true
 //@   on call RequestHeader.ConnectionClose -> r:
@@ -124,9 +128,19 @@ package fasthttp
 //@     effect respDirty = false; respClose = false; kaSet = false
 //@   on call Server.releaseCtx:
 //@     effect ctxReleased = ctxReleased + 1; reqDirty = false; respDirty = false; formLive = false
+//   The hijack handler gets a connection without deadlines: the read/write deadlines this loop armed for the request
+//   (server-wide or per request, from HeaderReceived) would otherwise cut off the bytes the client sends later.
+//@   ghost deadlinesCleared bool = false
+//@   on call net.Conn.SetDeadline(_, t) -> e:
+//@     effect deadlinesCleared = (e == nil && t == zeroTime)
+//@   on call net.Conn.SetReadDeadline -> e:
+//@     effect deadlinesCleared = false
+//@   on call net.Conn.SetWriteDeadline -> e:
+//@     effect deadlinesCleared = false
 //@   on go hijackConnHandler:
 //@     requires[response-flushed-first] @C17 hijackNoResponse || (wrote && flushed)
 //@     requires[reader-handed-over] @C17 br == nil && bw == nil
+//@     requires[deadlines-cleared-before-hand-over] @C17 deadlinesCleared
 //@     effect hijackStarted = true
 //
 //@   loop 1:
